@@ -25,6 +25,17 @@ import (
 type net struct {
 	mu    sync.Mutex
 	nodes map[string]*direct
+	held  chan struct{} // non-nil: requests sent by node 0 are held back (a slow or silent network) until released
+}
+
+// hold blocks the calling sender goroutine while the network holds node 0's requests
+func (n *net) hold(from string) {
+	n.mu.Lock()
+	h := n.held
+	n.mu.Unlock()
+	if h != nil && from == "a0" {
+		<-h
+	}
 }
 
 type direct struct {
@@ -61,6 +72,7 @@ func (d *direct) peer(addr string) (*direct, error) {
 }
 func (d *direct) SendAppendEntries(a string, q raft.AppendEntriesRequest) (raft.AppendEntriesResponse, error) {
 	var r raft.AppendEntriesResponse
+	d.n.hold(d.addr)
 	p, err := d.peer(a)
 	if err != nil {
 		return r, err
@@ -150,6 +162,19 @@ func child(prog string, nnodes int, dir string) {
 			say("bootstrap -> %v", n0.Bootstrap(members) != nil)
 		case "badbootstrap":
 			say("badbootstrap -> %v", n0.Bootstrap(map[string]string{"zz": "nowhere"}) != nil)
+		case "hold":
+			nw.mu.Lock()
+			if nw.held == nil {
+				nw.held = make(chan struct{})
+			}
+			nw.mu.Unlock()
+		case "release":
+			nw.mu.Lock()
+			if nw.held != nil {
+				close(nw.held)
+				nw.held = nil
+			}
+			nw.mu.Unlock()
 		case "sleep":
 			ms, _ := strconv.Atoi(f[1])
 			time.Sleep(time.Duration(ms) * time.Millisecond)
@@ -220,7 +245,7 @@ func child(prog string, nnodes int, dir string) {
 }
 
 var calls = []string{"start", "restart", "stop", "bootstrap", "badbootstrap", "sleep 60", "sleep 150", "status", "config",
-	"submit 0", "submit 1", "submit 2", "submit 7", "add 9 0", "add 1 1", "add %d 0", "remove 9", "remove 1", "allstates"}
+	"submit 0", "submit 1", "submit 2", "submit 7", "add 9 0", "add 1 1", "add %d 0", "remove 9", "remove 1", "allstates", "hold", "release"}
 
 func genProgram(r *rand.Rand, nnodes int) string {
 	var p []string
@@ -247,6 +272,9 @@ var scripted = []string{
 	"start;status;submit 0;submit 1;add 9 0;remove 9;stop;stop;start;start;status",
 	"stop;restart;status;config;bootstrap;badbootstrap;submit 2",
 	"bootstrap;bootstrap;start;restart;sleep 150;submit 0;submit 1;submit 2;submit 7;status",
+	// the network holds the node's AppendEntries requests back (no answer, no error): every call must still return
+	"bootstrap;start;sleep 200;status;hold;sleep 60;submit 0;stop;status;release;sleep 50;status",
+	"bootstrap;start;sleep 200;hold;sleep 60;add %d 0;stop;start;sleep 100;status;release;sleep 100;submit 0;status",
 }
 
 func main() {
